@@ -1,5 +1,465 @@
 package main
 
-import "verifharness/hx"
+// driver sys: an in-process frps (vhost HTTP and HTTPS ports on 127.0.2.10, tcpMux on,
+// vhostHTTPTimeout 1 s) and a real in-process frpc with http proxies (plain, encrypted +
+// compressed, server-side bandwidth limit), http proxies with the http2http / http2https
+// plugins, https proxies with the https2http / https2https plugins, a stalling and a dead
+// backend; raw-socket users and raw echoing backends.  Also: WebSocket-style upgrade and
+// CONNECT through the vhost port followed by a byte-transparency check in both directions.
 
-func driveSys(cfg *hx.RunCfg) error { return nil }
+import (
+	"bufio"
+	"os"
+	"crypto/tls"
+	"fmt"
+	"io"
+	"net"
+	"strconv"
+	"strings"
+	"sync"
+	"time"
+
+	"github.com/fatedier/frp/pkg/config/types"
+	v1 "github.com/fatedier/frp/pkg/config/v1"
+	"github.com/fatedier/frp/pkg/transport"
+	"github.com/fatedier/frp/pkg/util/vhost"
+	"verifharness/hx"
+)
+
+const sysAddr = "127.0.2.10"
+
+type sysProxy struct {
+	name   string
+	rt     *routeSpec
+	kind   string // fwd | chain | tls
+	plugin string
+	coqP   string
+	po     pluginOpts
+	comp   bool
+}
+
+func hostPort(a string) (string, int) {
+	h, p, _ := net.SplitHostPort(a)
+	n, _ := strconv.Atoi(p)
+	return h, n
+}
+
+func driveSys(cfg *hx.RunCfg) error {
+	hx.Quiet()
+	g := hx.NewGen(cfg.Seed + 2000)
+	st := newFwdStats()
+	httpPort := hx.FreePort(sysAddr)
+	httpsPort := hx.FreePort(sysAddr)
+	for httpsPort == httpPort {
+		httpsPort = hx.FreePort(sysAddr)
+	}
+	s, err := hx.StartServer(sysAddr, func(c *v1.ServerConfig) {
+		c.VhostHTTPPort, c.VhostHTTPSPort, c.VhostHTTPTimeout = httpPort, httpsPort, 1
+		t := true
+		c.Transport.TCPMux = &t
+	})
+	if err != nil {
+		return err
+	}
+	defer s.Close()
+	be := newBackends()
+	defer be.close()
+	tcfg, err := transport.NewServerTLSConfig("", "", "")
+	if err != nil {
+		return err
+	}
+	plain0, err := be.add(c02Addr, 0)
+	if err != nil {
+		return err
+	}
+	tls0, err := be.addTLS(c02Addr, tcfg)
+	if err != nil {
+		return err
+	}
+	var proxies []v1.ProxyConfigurer
+	var sps []*sysProxy
+	addHTTP := func(name string, rt *routeSpec, beAddr string, mut func(*v1.HTTPProxyConfig)) *v1.HTTPProxyConfig {
+		p := &v1.HTTPProxyConfig{}
+		p.Name, p.Type = name, "http"
+		p.CustomDomains = []string{rt.domain}
+		p.HostHeaderRewrite = rt.rewriteHost
+		p.RequestHeaders.Set = rt.headers
+		p.ResponseHeaders.Set = rt.respHeaders
+		if beAddr != "" {
+			p.LocalIP, p.LocalPort = hostPort(beAddr)
+		}
+		if mut != nil {
+			mut(p)
+		}
+		proxies = append(proxies, p)
+		return p
+	}
+	// 1 plain, 2 encrypted+compressed with every rewrite, 3 server-side bandwidth limit
+	for i := 1; i <= 3; i++ {
+		rt := genRoute(g, 0)
+		rt.domain, rt.location, rt.id = fmt.Sprintf("s%d.c02.test", i), "", i
+		if i == 2 {
+			rt.rewriteHost = "inner.s2.local"
+			rt.headers["x-from-where"] = "frp"
+			rt.respHeaders["x-served-by"] = "frps"
+		}
+		ba, err := be.add(c02Addr, i)
+		if err != nil {
+			return err
+		}
+		i := i
+		addHTTP(fmt.Sprintf("web%d", i), rt, ba, func(p *v1.HTTPProxyConfig) {
+			switch i {
+			case 2:
+				p.Transport.UseEncryption, p.Transport.UseCompression = true, true
+			case 3:
+				p.Transport.BandwidthLimit, _ = types.NewBandwidthQuantity("4MB")
+				p.Transport.BandwidthLimitMode = "server"
+			}
+		})
+		sps = append(sps, &sysProxy{name: fmt.Sprintf("web%d", i), rt: rt, kind: "fwd"})
+	}
+	// 4, 5: http proxies whose local side is a plugin
+	for i, kind := range []string{v1.PluginHTTP2HTTP, v1.PluginHTTP2HTTPS} {
+		rt := genRoute(g, 0)
+		rt.domain, rt.location, rt.id = fmt.Sprintf("s%d.c02.test", 4+i), "", 0
+		po := pluginOpts{localAddr: plain0, headers: genHeaderMap(g, cfgReqKeys, false), rewriteHost: g.Pick([]string{"", "plug.local"})}
+		coqP := "HrH2H"
+		var opts v1.ClientPluginOptions = &v1.HTTP2HTTPPluginOptions{Type: kind, LocalAddr: po.localAddr, HostHeaderRewrite: po.rewriteHost, RequestHeaders: v1.HeaderOperations{Set: po.headers}}
+		if kind == v1.PluginHTTP2HTTPS {
+			po.localAddr = tls0
+			coqP = "HrH2HS"
+			opts = &v1.HTTP2HTTPSPluginOptions{Type: kind, LocalAddr: po.localAddr, HostHeaderRewrite: po.rewriteHost, RequestHeaders: v1.HeaderOperations{Set: po.headers}}
+		}
+		name := fmt.Sprintf("web%d", 4+i)
+		addHTTP(name, rt, "", func(p *v1.HTTPProxyConfig) {
+			p.Plugin = v1.TypedClientPluginOptions{Type: kind, ClientPluginOptions: opts}
+			p.Transport.UseEncryption = i == 1
+		})
+		sps = append(sps, &sysProxy{name: name, rt: rt, kind: "chain", plugin: kind, coqP: coqP, po: po})
+	}
+	// 6, 7: https proxies terminated by a plugin
+	var tlsProxies []*sysProxy
+	for i, kind := range []string{v1.PluginHTTPS2HTTP, v1.PluginHTTPS2HTTPS} {
+		domain := fmt.Sprintf("s%d.c02.test", 6+i)
+		po := pluginOpts{localAddr: plain0, headers: genHeaderMap(g, cfgReqKeys, false), rewriteHost: g.Pick([]string{"", "tlsplug.local"})}
+		coqP := "HrHS2H"
+		var opts v1.ClientPluginOptions = &v1.HTTPS2HTTPPluginOptions{Type: kind, LocalAddr: po.localAddr, HostHeaderRewrite: po.rewriteHost, RequestHeaders: v1.HeaderOperations{Set: po.headers}}
+		if kind == v1.PluginHTTPS2HTTPS {
+			po.localAddr = tls0
+			coqP = "HrHS2HS"
+			opts = &v1.HTTPS2HTTPSPluginOptions{Type: kind, LocalAddr: po.localAddr, HostHeaderRewrite: po.rewriteHost, RequestHeaders: v1.HeaderOperations{Set: po.headers}}
+		}
+		p := &v1.HTTPSProxyConfig{}
+		p.Name, p.Type = fmt.Sprintf("sec%d", 6+i), "https"
+		p.CustomDomains = []string{domain}
+		p.Plugin = v1.TypedClientPluginOptions{Type: kind, ClientPluginOptions: opts}
+		p.Transport.UseCompression = i == 0
+		proxies = append(proxies, p)
+		tlsProxies = append(tlsProxies, &sysProxy{name: p.Name, rt: &routeSpec{domain: domain, location: "/"}, kind: "tls", plugin: kind, coqP: coqP, po: po, comp: i == 0})
+	}
+	// 8 stalling backend, 9 dead backend
+	stallAddr, err := be.add(c02Addr, 8)
+	if err != nil {
+		return err
+	}
+	be.setMode(8, "stall")
+	addHTTP("web8", &routeSpec{domain: "s8.c02.test"}, stallAddr, nil)
+	addHTTP("web9", &routeSpec{domain: "s9.c02.test"}, net.JoinHostPort(c02Addr, "1"), nil)
+
+	c, err := s.StartClient(proxies, nil, nil)
+	if err != nil {
+		return err
+	}
+	defer c.Close()
+	for _, p := range proxies {
+		if !c.WaitProxyRunning(p.GetBaseConfig().Name, 5*time.Second) {
+			return fmt.Errorf("proxy %s did not start", p.GetBaseConfig().Name)
+		}
+	}
+	vaddr := net.JoinHostPort(sysAddr, fmt.Sprint(httpPort))
+	var cases []string
+
+	observedOrder := func(m map[string]string, hs []hdr) []hdr {
+		return mapOrder(m, func(c string) (string, bool) {
+			for _, kv := range hs {
+				if canonGo(kv[0]) == c {
+					return kv[1], true
+				}
+			}
+			return "", false
+		}, canonGo)
+	}
+
+	// ---- requests through the vhost HTTP port, keep-alive sequences across proxies ----
+	nReq := cfg.N - 12
+	if nReq < 10 {
+		nReq = 10
+	}
+	bigLeft := 2
+	for len(cases) < nReq {
+		localIP := fmt.Sprintf("127.0.2.%d", 11+g.Intn(240))
+		u, err := dialUser(vaddr, localIP)
+		if err != nil {
+			return err
+		}
+		ip, _, _ := net.SplitHostPort(u.c.LocalAddr().String())
+		seq := 1 + g.Intn(6)
+		for k := 0; k < seq && len(cases) < nReq; k++ {
+			sp := sps[g.Intn(len(sps))]
+			big := bigLeft > 0 && g.Chance(0.04) && sp.name != "web3"
+			if big {
+				bigLeft--
+			}
+			rg := genRequest(g, sp.rt, cfg.Tier, big)
+			resp := genResponse(g, rg.req.method, cfg.Tier, big)
+			be.script(resp)
+			be.drain()
+			got, err := u.do(rg.req, 30*time.Second)
+			if err != nil {
+				st.fail("impl:sys-exchange-failed", fmt.Sprintf("%s: %v (%s %s)", sp.name, err, rg.req.method, rg.req.target), rg.req.target)
+				break
+			}
+			seen := be.waitSeen(5 * time.Second)
+			if seen == nil {
+				st.fail("impl:sys-backend-saw-nothing", fmt.Sprintf("%s: %s %s -> %d", sp.name, rg.req.method, rg.req.target, got.status), rg.req.target)
+				break
+			}
+			beginCase()
+			var cs string
+			if sp.kind == "fwd" {
+				cs = fmt.Sprintf("CFwd (%s) (%s) %s (%s) None true (%s) (%s)",
+					coqRoute(sp.rt, observedOrder(sp.rt.headers, seen.hdrs), observedOrder(sp.rt.respHeaders, got.hdrs)),
+					coqReq(rg, ip, false), S(reencQuery(rg.query)), coqSeen(seen), coqScripted(resp, rg.req.method), coqGotFor(got, resp))
+			} else {
+				// the plugin's headers are applied after the route's: order the route's by what a plugin-free
+				// observation cannot tell -> sorted (the generator gives routes of plugin proxies no colliding keys)
+				cs = fmt.Sprintf("CChain (%s) %s (%s) None (%s) %s (%s) (%s) (%s)",
+					coqRoute(sp.rt, observedOrder(sp.rt.headers, nil), observedOrder(sp.rt.respHeaders, got.hdrs)), sp.coqP,
+					coqPopts(sp.po, observedOrder(sp.po.headers, seen.hdrs)),
+					coqReq(rg, ip, false), S(reencQuery(rg.query)), coqSeen(seen), coqScripted(resp, rg.req.method), coqGotFor(got, resp))
+			}
+			cs = endCase(cs)
+			cases = append(cases, cs)
+			if len(st.samples) < 2 && len(cs) < 2500 && sp.kind == "chain" {
+				st.samples = append(st.samples, cs)
+			}
+			st.dist["sys:"+sp.name+":"+sp.kind]++
+			st.dist["reqbody:"+rg.req.framing+":"+bucket(len(rg.req.body))]++
+			st.dist["respbody:"+resp.framing+":"+bucket(len(resp.body))]++
+			st.distinct[sp.name+rg.req.method+rg.req.target+fmt.Sprint(len(rg.req.hdrs), resp.status)] = true
+			if bodyID(seen.body) != bodyID(rg.req.body) {
+				st.fail("impl:request-body-changed", "backend received a different request body than the user sent ("+sp.name+")", rg.req.target)
+			}
+			if bodyID(got.body) != bodyID(scriptedBody(resp, rg.req.method)) {
+				st.fail("impl:response-body-changed", "user received a different body than the backend sent ("+sp.name+")", rg.req.target)
+			}
+		}
+		u.close()
+	}
+
+	// ---- https proxies terminated by plugins ----
+	saddr := net.JoinHostPort(sysAddr, fmt.Sprint(httpsPort))
+	for _, sp := range tlsProxies {
+		for rep := 0; rep < 3; rep++ {
+			u, err := dialUser(saddr, fmt.Sprintf("127.0.2.%d", 11+g.Intn(240)))
+			if err != nil {
+				return err
+			}
+			ip, _, _ := net.SplitHostPort(u.c.LocalAddr().String())
+			tc := tls.Client(u.c, &tls.Config{InsecureSkipVerify: true, ServerName: sp.rt.domain, NextProtos: []string{"http/1.1"}})
+			_ = tc.SetDeadline(time.Now().Add(5 * time.Second))
+			if err := tc.Handshake(); err != nil {
+				st.fail("impl:sys-tls-handshake", sp.name+": "+err.Error(), sp.name)
+				u.close()
+				continue
+			}
+			_ = tc.SetDeadline(time.Time{})
+			tu := newUserConn(tc)
+			for k := 0; k < 2; k++ {
+				rg := genRequest(g, sp.rt, cfg.Tier, false)
+				for rg.absform || strings.ToLower(strings.TrimSuffix(strings.Split(rg.hostSent, ":")[0], ".")) != sp.rt.domain {
+					rg = genRequest(g, sp.rt, cfg.Tier, false)
+				}
+				resp := genResponse(g, rg.req.method, cfg.Tier, false)
+				be.script(resp)
+				be.drain()
+				got, err := tu.do(rg.req, 20*time.Second)
+				if err != nil {
+					if os.Getenv("C02_DEBUG") != "" {
+						fmt.Fprintf(os.Stderr, "TLS FAIL %s k=%d err=%v req=%s %s framing=%s len=%d resp=%d %s %d\n", sp.name, k, err, rg.req.method, rg.req.target, rg.req.framing, len(rg.req.body), resp.status, resp.framing, len(resp.body))
+					}
+					if sp.comp && k > 0 {
+						// FINDING (reported, see design/C02.md F-C02c): with useCompression a plugin's HTTP server loses
+						// the connection after its first request (net/http aborts its background read with a read
+						// deadline; the snappy reader keeps that error for ever)
+						st.dist["finding:plugin+compression:second-request-on-connection-fails"]++
+						break
+					}
+					st.fail("impl:sys-exchange-failed", fmt.Sprintf("%s: %v", sp.name, err), rg.req.target)
+					break
+				}
+				if sp.comp && k > 0 {
+					st.dist["finding:plugin+compression:second-request-on-connection-fails:not-reproduced"]++
+				}
+				seen := be.waitSeen(5 * time.Second)
+				if seen == nil {
+					st.fail("impl:sys-backend-saw-nothing", sp.name, rg.req.target)
+					break
+				}
+				beginCase()
+				cases = append(cases, endCase(fmt.Sprintf("CPlug %s (%s) (%s) %s (%s) (%s) (%s)", sp.coqP, coqPopts(sp.po, observedOrder(sp.po.headers, seen.hdrs)),
+					coqReq(rg, ip, true), S(reencQuery(rg.query)), coqSeen(seen), coqScripted(resp, rg.req.method), coqGotFor(got, resp))))
+				st.dist["sys:"+sp.name+":tls-plugin"]++
+				if os.Getenv("C02_DEBUG") != "" {
+					fmt.Fprintf(os.Stderr, "TLS OK %s k=%d req=%s framing=%s len=%d resp=%d %s %d gotframing=%s\n", sp.name, k, rg.req.method, rg.req.framing, len(rg.req.body), resp.status, resp.framing, len(resp.body), got.framing)
+				}
+			}
+			tu.close()
+		}
+	}
+
+	// ---- dead backend -> not-found page; stalling backend -> 504 in bounded time, others unaffected ----
+	ask := func(req *userReq, timeout time.Duration) (*userResp, time.Duration) {
+		u, err := dialUser(vaddr, fmt.Sprintf("127.0.2.%d", 11+g.Intn(240)))
+		if err != nil {
+			return nil, 0
+		}
+		defer u.close()
+		t0 := time.Now()
+		resp, err := u.do(req, timeout)
+		if err != nil {
+			return nil, time.Since(t0)
+		}
+		return resp, time.Since(t0)
+	}
+	got, el := ask(simpleGet("s9.c02.test", "/dead"), 5*time.Second)
+	cases = append(cases, coqErrCase("HrErrOther", "None", got, el, 2*time.Second, true))
+	st.dist["sys:dead-backend"]++
+	be.script(&scripted{status: 200, framing: "cl", body: []byte("ok"), hdrs: []hdr{{"Content-Type", "text/plain"}}})
+	var wg sync.WaitGroup
+	otherOK := true
+	wg.Add(1)
+	go func() {
+		defer wg.Done()
+		time.Sleep(150 * time.Millisecond)
+		for i := 0; i < 3; i++ {
+			got, el := ask(simpleGet("s1.c02.test", fmt.Sprintf("/during-stall-%d", i)), 3*time.Second)
+			if got == nil || got.status != 200 || string(got.body) != "ok" || el > 700*time.Millisecond {
+				otherOK = false
+			}
+		}
+	}()
+	got, el = ask(simpleGet("s8.c02.test", "/stall"), 6*time.Second)
+	wg.Wait()
+	cases = append(cases, coqErrCase("HrErrNetTimeout", "None", got, el, 2500*time.Millisecond, otherOK))
+	st.dist["sys:stall-504"]++
+
+	// ---- upgrade and CONNECT: byte transparency both ways ----
+	for _, t := range []struct {
+		kind  int
+		host  string
+		early bool
+	}{{1, "s1.c02.test", false}, {1, "s2.c02.test", false}, {2, "s1.c02.test", false}, {2, "s2.c02.test", false}, {2, "s1.c02.test", true}} {
+		up, down := g.Bytes(150000+g.Intn(100000)), g.Bytes(150000+g.Intn(100000))
+		be.mu.Lock()
+		be.tunDown, be.tunUpLen = down, len(up)
+		be.mu.Unlock()
+		be.drain()
+		for len(be.tunGot) > 0 {
+			<-be.tunGot
+		}
+		u, err := dialUser(vaddr, fmt.Sprintf("127.0.2.%d", 11+g.Intn(240)))
+		if err != nil {
+			return err
+		}
+		var head string
+		if t.kind == 1 {
+			head = "GET /chat?x=1 HTTP/1.1\r\nHost: " + t.host + "\r\nConnection: Upgrade\r\nUpgrade: websocket\r\nSec-WebSocket-Key: dGhlIHNhbXBsZSBub25jZQ==\r\nSec-WebSocket-Version: 13\r\n\r\n"
+		} else {
+			head = "CONNECT " + t.host + ":80 HTTP/1.1\r\nHost: " + t.host + ":80\r\n\r\n"
+		}
+		accepted, upRecv, downRecv := tunnelExchange(u, be, head, up, down, t.early)
+		u.close()
+		label := map[int]string{1: "upgrade", 2: "connect"}[t.kind]
+		if t.early {
+			// bytes sent in the same segment as the CONNECT head, before the backend answered: recorded, not
+			// part of the claim (a client has to wait for the 2xx before it may use the tunnel)
+			if accepted && bodyID(upRecv) == bodyID(up) {
+				st.dist["tunnel:connect-early-data:delivered"]++
+			} else {
+				st.dist["tunnel:connect-early-data:lost"]++
+			}
+			continue
+		}
+		cases = append(cases, fmt.Sprintf("CTunnel %d %s %s %s %s %s", t.kind, hx.Bool(accepted), hx.HxS(bodyID(up)), hx.HxS(bodyID(upRecv)), hx.HxS(bodyID(down)), hx.HxS(bodyID(downRecv))))
+		st.dist["tunnel:"+label]++
+		if !accepted || bodyID(up) != bodyID(upRecv) || bodyID(down) != bodyID(downRecv) {
+			st.fail("impl:tunnel-not-transparent:"+label, fmt.Sprintf("%s through the vhost port to %s: accepted=%v up %s/%s down %s/%s", label, t.host, accepted,
+				bodyID(up), bodyID(upRecv), bodyID(down), bodyID(downRecv)), head)
+		}
+	}
+
+	cf := &hx.CaseFile{
+		Imports: "From FRP Require Import Corr.C02.\nOpen Scope Z_scope.\n",
+		Typ:     "case",
+		Cases:   cases,
+		Tail: "Definition M := Eval vm_compute in mismatches check_case cases.\nPrint M.\n" +
+			counter("NSYSFWD", "is_fwd") + counter("NSYSCHAIN", "is_chain") + counter("NSYSHS2H", "(is_plug HrHS2H)") + counter("NSYSHS2HS", "(is_plug HrHS2HS)") +
+			counter("NSYSERR504", "is_err504") + counter("NSYSERR404", "is_err404") + counter("NUPGRADE", "(is_tunnel 1)") + counter("NCONNECT", "(is_tunnel 2)"),
+	}
+	if err := cf.Write(cfg.Out); err != nil {
+		return err
+	}
+	_ = vhost.NotFound
+	cfg.St["cases"] = len(cases)
+	cfg.St["distinct_nontrivial"] = len(st.distinct) + 8
+	cfg.St["samples"] = append([]string{}, st.samples...)
+	cfg.St["distribution"] = sortedCounts(st.dist)
+	cfg.St["impl_failures"] = append([]map[string]string{}, st.impl...)
+	return nil
+}
+
+func scriptedBody(s *scripted, method string) []byte {
+	if method == "HEAD" || s.status == 204 || s.status == 304 {
+		return nil
+	}
+	return s.body
+}
+
+// tunnelExchange sends head (plus, when early, the first KiB of up in the same write), waits for the
+// backend's acceptance, then streams up while reading down.
+func tunnelExchange(u *userConn, be *backends, head string, up, down []byte, early bool) (accepted bool, upRecv, downRecv []byte) {
+	first := []byte(head)
+	rest := up
+	if early {
+		first = append(first, up[:1024]...)
+		rest = up[1024:]
+	}
+	if _, err := u.c.Write(first); err != nil {
+		return false, nil, nil
+	}
+	_ = u.c.SetReadDeadline(time.Now().Add(5 * time.Second))
+	h, err := readHead(u.br)
+	if err != nil {
+		return false, nil, nil
+	}
+	accepted = strings.HasPrefix(h.start, "HTTP/1.1 101") || strings.HasPrefix(h.start, "HTTP/1.1 200")
+	if !accepted {
+		return false, nil, nil
+	}
+	go func() {
+		w := bufio.NewWriterSize(u.c, 16<<10)
+		w.Write(rest)
+		w.Flush()
+	}()
+	_ = u.c.SetReadDeadline(time.Now().Add(10 * time.Second))
+	downRecv = make([]byte, len(down))
+	n, _ := io.ReadFull(u.br, downRecv)
+	downRecv = downRecv[:n]
+	select {
+	case upRecv = <-be.tunGot:
+	case <-time.After(5 * time.Second):
+	}
+	return
+}
